@@ -253,6 +253,7 @@ var propRules = map[string]*PropSpec{
 			"Clone/NewBSIRetainSet, ClearValues, ParOr, RunOptimize, Equals, WriteTo/ReadFrom ... iterate over all len(bA) planes (sign plane included)", "SetValue/SetMany/SetBigValue/SetBigMany write (set or clear) every plane", "widening copies the old sign plane into every new plane up to the new top plane", "Marshal/Unmarshal/WriteTo/ReadFrom propagate errors", "per-plane goroutines are paired with a WaitGroup", "Clone/NewBSIRetainSet copy planes only from freshly cloned bitmaps (no shared headers)",
 			"the n-ary union (ParOr) of indexes of different widths: the receiver is sign-extended when it grows, a narrower operand contributes its sign plane to every higher plane, and the per-plane operand lists are only appended to (no operand's plane is dropped, whatever the argument order)",
 			"every exported method of the 64-bit index that appends planes to its own array is either checked for sign extension or exempt with a reason",
+			"x.Add(x) never reads the operand on the path where it is the receiver (a snapshot stands in)",
 			"ClearValues removes its found-set from the existence bitmap only after (and never concurrently with) its last other use of it, so the found-set may be GetExistenceBitmap() itself"},
 		NotDecided: []string{"two's-complement encode/decode", "ripple-carry addition", "how many planes a value needs"},
 		Technique:  "static analysis: loop-bound vs slice-length agreement over go/ssa; error-flow rules",
